@@ -63,6 +63,9 @@ type cluster struct {
 	pubAssign    map[string]assignment
 	staleAllowed bool
 	faultsFired  int
+	// database whose drop the master handled while a repository call of the handler failed
+	// (and whose assignment was not announced again since)
+	faultedDrop map[string]bool
 
 	log        []string
 	classes    map[string]int
@@ -77,6 +80,8 @@ func newCluster(t failer) *cluster {
 		viewAssign: map[string]assignment{},
 		dropped:    map[string]bool{},
 		classes:    map[string]int{},
+
+		faultedDrop: map[string]bool{},
 	}
 	c.repo.onPut = c.onPut
 	c.repo.onDelete = c.onDelete
@@ -366,6 +371,9 @@ func (c *cluster) deliver(qi int) {
 		if known {
 			c.afterSync()
 		}
+		if len(fired) > 0 {
+			c.faultedDrop[name] = true
+		}
 		if got := c.etcdAssign(name); got != nil && len(fired) == 0 {
 			c.fatalf("drop of %s handled, but its shard assignment is still in the repository: %s", name, fmtAssignment(got))
 		}
@@ -382,6 +390,7 @@ func (c *cluster) deliver(qi int) {
 			c.classes["assignment-after-drop"]++
 		}
 		c.viewAssign[name] = asg
+		delete(c.faultedDrop, name)
 		c.process(e)
 		c.afterSync()
 
@@ -627,6 +636,7 @@ func (c *cluster) failover() {
 	c.viewLive = map[models.NodeID]bool{}
 	c.viewAssign = map[string]assignment{}
 	c.dropped = map[string]bool{}
+	c.faultedDrop = map[string]bool{}
 	c.published = false
 	c.staleAllowed = false
 	c.pubLive, c.pubAssign = nil, nil
@@ -923,6 +933,15 @@ func (c *cluster) checkConverged() {
 		stored++
 		want := c.etcdAssign(name)
 		asg, ok := st.ShardAssignments[name]
+		if !ok && c.faultedDrop[name] {
+			// Observation, not asserted (C18 is silent about it): onDatabaseCfgDelete gives up
+			// when the publication (or the delete) fails, after it removed the database from
+			// memory; the stored assignment of the dropped database then stays in the
+			// repository (a later master would load it again). Only reachable when the master
+			// itself had re-created the assignment after the broker's drop (late config event).
+			c.classes["observed:stored-assignment-left-behind-by-faulted-drop"]++
+			continue
+		}
 		if !ok {
 			c.fatalf("quiesced: database %s has a stored assignment but is not in the master's state", name)
 		}
